@@ -112,9 +112,14 @@ def optimal(binner: Binner, numbins: int, items: List[any]) -> BinsArray:
         bins2 = current_heap.pop()
 
         tmp_stack_extension = []
+        sums_seen = set()   # the difference depends only on the sums, so one combination per vector of sums is enough (and makes the search independent of the binner)
 
         # for new_bins in bins1.all_combinations(bins2):
         for new_bins in binner.all_combinations(bins1, bins2):
+            new_sums = tuple(sorted(binner.sums(new_bins)))
+            if new_sums in sums_seen:
+                continue
+            sums_seen.add(new_sums)
             tmp_heap = current_heap.clone()
             tmp_heap.push(new_bins)
             tmp_stack_extension.append(tmp_heap)
